@@ -276,6 +276,11 @@ class SymBytes:
         return SymBytes.make(self.items[n:], self.mutable)
 
     def strip(self, chars=None):
+        if chars is not None and any(_issym(x) for x in self.items):
+            return _LazyStrip(self, chars)
+        return self._strip_now(chars)
+
+    def _strip_now(self, chars=None):
         r = self.rstrip(chars)
         return r.lstrip(chars) if _ri(r, SymBytes) else r.lstrip(bytes(items_of(chars)) if chars is not None else None)
 
@@ -305,6 +310,32 @@ class SymBytes:
 
     def tobytes(self):
         return SymBytes.make(self.items, False)
+
+
+
+class _LazyStrip(SymBytes):
+    """bytes.strip(chars) of symbolic content.  Whether anything is left is ONE solver condition (some byte is outside
+    `chars`); the stripped content itself (one fork per byte position from either end) is computed only when it is
+    looked at.  `not block.strip(b"...")` therefore costs one fork instead of a quadratic number of paths."""
+
+    def __init__(self, src, chars):
+        self._src, self._chars, self._val = src, chars, None
+        self.mutable = src.mutable
+
+    def _force(self):
+        if self._val is None:
+            self._val = list(items_of(self._src._strip_now(self._chars)))
+        return self._val
+
+    items = property(lambda self: self._force(), lambda self, v: setattr(self, "_val", list(v)))
+
+    def __bool__(self):
+        if self._val is not None:
+            return len(self._val) > 0
+        from .core import And, Or
+        ci = items_of(self._chars)
+        conds = [And(*[it != c for c in ci]) for it in self._src.items]
+        return bool(Or(*conds)) if conds else False
 
 
 class SymView:
